@@ -384,6 +384,12 @@ func run(ctx context.Context, lightningPlugin *clightning.ClightningClient) erro
 		}
 	}
 
+	// The swaps of the last run are restored further down (RecoverSwaps); until
+	// then nobody else may take their channels.
+	err = swapService.ReserveStoredChannels()
+	if err != nil {
+		return err
+	}
 	err = swapService.Start()
 	if err != nil {
 		return err
